@@ -1,2 +1,60 @@
-From HD Require Import common.Base he.Model he.Spec.
-Theorem c10_tmp : True. Proof. exact I. Qed.
+(* C10 — Happy-eyeballs connect succeeds iff some candidate would; first success wins.
+   Statements only; proofs in he/Proofs.v.  Every theorem quantifies over ALL attempt lists
+   (any length, any outcomes and latencies), ALL configurations (delay, timeout, concurrency:
+   none / zero / any value) and ALL tie-break orders among simultaneous completions. *)
+From HD Require Import common.Base he.Model he.Spec he.Proofs.
+
+(* the whole C10 monitor (he/Spec.v): soundness of Ok, completeness, error and timeout clauses *)
+Theorem c10_monitor : forall c tb atts, mon_C10 c atts (he_obs c tb atts) = true.
+Proof. exact mon_C10_holds. Qed.
+Check c10_monitor : forall c tb atts, mon_C10 c atts (he_obs c tb atts) = true.
+Print Assumptions c10_monitor.
+
+(* Ok i: attempt i succeeds, was started, the operation completes exactly when i does, within
+   the deadline, and no started attempt would have succeeded earlier *)
+Theorem c10_ok_sound : forall c tb atts, s_ok_sound c atts (he_obs c tb atts) = true.
+Proof.
+  intros c tb atts. destruct (he_obs_final c atts tb) as (res & td & lg & E & HF).
+  rewrite E. exact (clause_ok_sound c atts res td lg HF).
+Qed.
+Print Assumptions c10_ok_sound.
+
+(* a failure verdict is impossible while some started attempt succeeds before the deadline *)
+Theorem c10_complete : forall c tb atts, s_complete c atts (he_obs c tb atts) = true.
+Proof.
+  intros c tb atts. destruct (he_obs_final c atts tb) as (res & td & lg & E & HF).
+  rewrite E. exact (clause_complete c atts res td lg HF).
+Qed.
+Print Assumptions c10_complete.
+
+(* Err i: every candidate was tried and failed, i is the first failure observed;
+   NoProgress: exactly when there is no candidate, at time 0 *)
+Theorem c10_err : forall c tb atts, s_err atts (he_obs c tb atts) = true.
+Proof.
+  intros c tb atts. destruct (he_obs_final c atts tb) as (res & td & lg & E & HF).
+  rewrite E. exact (clause_err c atts res td lg HF).
+Qed.
+Print Assumptions c10_err.
+
+(* Timeout only with a deadline and exactly at it; Hang only without a deadline; the fuel of
+   the third loop is never exhausted *)
+Theorem c10_timeout : forall c tb atts, s_timeout c (he_obs c tb atts) = true.
+Proof.
+  intros c tb atts. destruct (he_obs_final c atts tb) as (res & td & lg & E & HF).
+  rewrite E. exact (clause_timeout c atts res td lg HF).
+Qed.
+Print Assumptions c10_timeout.
+
+Theorem c10_total : forall c tb atts, fst (fst (he_obs c tb atts)) <> RFuel.
+Proof. exact he_never_out_of_fuel. Qed.
+Print Assumptions c10_total.
+
+Theorem c10_empty : forall c tb, he_obs c tb [] = (RNoProgress, Some 0%N, []).
+Proof. intros c tb. unfold he_obs, he_run. destruct c as [d t [[|k]|]]; reflexivity. Qed.
+Print Assumptions c10_empty.
+
+(* non-vacuity: a run in which the second candidate wins after the first failed *)
+Example c10_example :
+  he_obs (mkCfg (Some 3%N) (Some 20%N) (Some 1%nat)) [] [mkAtt Fail 5; mkAtt Succ 4; mkAtt Never 0]%N
+  = (ROk 1, Some 7%N, [EStart 0 0; EStart 1 3; EDone 0 5; EStart 2 5; EDone 1 7])%N.
+Proof. vm_compute. reflexivity. Qed.
